@@ -612,6 +612,26 @@ func C06(r *h.Run) {
 		}
 	}
 
+	// ---- what a safely failed response leaves behind: after compressed responses that the client
+	// refuses (corrupt; inflating beyond its read limit), overlapping calls through the same client
+	// each get their own message - no panic, no foreign or empty message ----
+	for round := 0; round < r.N(4, 24); round++ {
+		bomb := []byte{255, 'x', 255, 'y'} // run-length pairs: 4 wire bytes, 510 bytes inflated, limit 256
+		bomb2 := []byte{255, 'x', 2, 'y'}
+		corrupt := []byte{3, 'a', 7}
+		triggers := [][][]byte{{bomb}, {corrupt}, {bomb2, corrupt}, {bomb, bomb, corrupt}}[round%4]
+		probs, wrong, first := clientDecompressorSharing(triggers, 16, 10)
+		in := map[string]any{"first": []string{"a response that inflates beyond the client's read limit", "a corrupt compressed response", "one of each", "two oversize responses and a corrupt one"}[round%4] + " (each call fails safely)", "then": "16 goroutines x 10 calls on the same client, each answered with the compressed echo of its request"}
+		r.Eval("after_refused_compressed_response", fmt.Sprint(round))
+		r.Sample("after_refused_compressed_response", map[string]any{"in": in, "calls_with_a_wrong_result": wrong, "tracker_findings": len(probs)})
+		for _, pr := range probs {
+			r.Fail(h.Failure{Key: "client/pooled-decompressor-shared", Family: "after_refused_compressed_response", What: pr, Input: in})
+		}
+		if wrong > 0 {
+			r.Fail(h.Failure{Key: "client/wrong-result-after-refusal", Family: "after_refused_compressed_response", What: fmt.Sprintf("%d call(s) panicked, failed, or returned a message that is not theirs", wrong), Input: in, Actual: first})
+		}
+	}
+
 	// ---- Grpc-Message values, well-formed or not, in trailers first (a panic there is
 	// recovered on the caller's goroutine), then in headers (decoded on the request
 	// goroutine: only tried for values the trailer placement survived) ----
